@@ -27,6 +27,12 @@ dependencies (C06Monitor.trigger_update: rows left clean / dirty / dirty-but-exe
 formulas reading several rows added on the fly (multi_row_reader); c06_trigger_sum reads them through
 summary-table groups ($group.tot).  Three trigger documents are
 explored a second time with the mix narrowed to these shapes (seed names ending in _focus).
+Lookup indexes that come into being WHILE a bundle is recalculated, keyed by formula columns: seed
+document c06_fkey (lookups keyed by formula columns whose rows need other formula cells only in some
+rows; every index is created during load, so (c) meets them half-built) and the bundle shape
+C06Monitor.fresh_lookup (a new lookup keyed by a formula column K of the current document, by K's
+own value or by a column whose values meet K's, in one bundle with an edit that leaves K dirty in
+some rows only), about a fifth of the bundles of the documents without trigger columns.
 Bounded: seeded random histories; never a proof."""
 import itertools
 import math
@@ -660,7 +666,8 @@ class C06Monitor(explore.Monitor):
     form = rng.choice(["len(%s.lookupRecords(%s=%s))", "[r.id for r in %s.lookupRecords(%s=%s)]",
                        "%s.lookupOne(%s=%s, order_by='-id').id",
                        "[r.id for r in %s.lookupRecords(%s=%s, order_by='-id')]"]) % (t, K, x)
-    mine = [c for c in tabs[host][0] if c[2] and c[0].startswith(FRESH_PREFIX) and c[0] != K]
+    mine = [c for c in tabs[host][0] if c[2] and c[0].startswith(FRESH_PREFIX) and c[0] != K
+            and c not in forms]                      # (never a column K reads: no new cycle)
     if mine and rng.random() < 0.3:
       look = [["ModifyColumn", host, rng.choice(mine)[0], {"formula": form}]]
     elif len(tabs[host][0]) < 12:
@@ -858,7 +865,10 @@ def main():
   rep.assumptions += [
     common.SHIM_ASSUMPTION,
     "bounded: seeded random histories (vlib/rtc/gen.py alphabet plus cycle-creating formula edits) "
-    "over 12 seed documents, 3 of them with circular references, one with cross-row dependencies, "
+    "over 13 seed documents, 3 of them with circular references, one with cross-row dependencies, "
+    "one with lookups keyed by formula columns whose rows become ready at different times (about "
+    "a fifth of the bundles of the documents without trigger columns add a lookup keyed by a "
+    "formula column together with an edit that dirties some rows of that column), "
     "four with trigger-formula columns (recalcDeps), two of these with formulas that read several "
     "rows of a trigger column at once (record-set attributes, summary-table groups); three trigger "
     "documents are explored twice, the second "
